@@ -21,7 +21,40 @@ def write_set(ctx):
                               for x in cfg.dom_set(b, t["true"]) for st in b.stmts(x))
         if sets_true:
             names.add(t["name"])
+    # the table form: `WRITE_COMMANDS.contains(&command)` over a constant slice of strings whose
+    # contents the fact extractor exports; the lookup's result is what the function returns
+    for i, t in b.calls():
+        if re.search(r"slice::<impl \[&str\]>::contains$", t["f"] or "") and t["a"] and not op_is_const(t["a"][0]):
+            tbl = _const_strs(b, t["a"][0])
+            if tbl is None:
+                continue
+            d = t["d"]["l"]
+            returned = d == 0 or any(st["k"] == "=" and st["l"]["l"] == 0 and not st["l"]["p"] and st["r"]["k"] == "use" and not op_is_const(st["r"]["o"]) and op_place(st["r"]["o"])["l"] == d
+                                     for x in cfg.fwd(b, [i]) for st in b.stmts(x))
+            if returned:
+                names |= set(tbl)
     return names
+
+
+def _const_strs(b, o, depth=6):
+    """the exported strings of the constant table an operand is a copy / reborrow of"""
+    if depth == 0:
+        return None
+    if op_is_const(o):
+        return o.get("strs")
+    pl = op_place(o)
+    defs = prov.build_defs(b).get(pl["l"], ())
+    if len(defs) != 1:
+        return None
+    kind, _, d = defs[0]
+    if kind != "stmt" or d["l"]["p"]:
+        return None
+    r = d["r"]
+    if r["k"] in ("use", "cast"):
+        return _const_strs(b, r["o"], depth - 1)
+    if r["k"] == "ref":
+        return _const_strs(b, {"cp": {"l": r["p"]["l"], "p": []}}, depth - 1)
+    return None
 
 
 def rule_set(ctx, R):
